@@ -57,7 +57,8 @@ def unresolved_subtree_sets(m: S.SearchModel, guard: Formula, variables: list[st
                 x = a[len(v) + 4:]
                 if x in known or x in out or not x.isidentifier():
                     continue
-                if "subtree" in S.provenance(m, ast.Name(id=x, ctx=ast.Load())):
+                # a set made of the known sets only (a union taken too early, a snapshot) is resolved - whatever the test then lacks, it lacks
+                if "subtree" in S.provenance(m, ast.Name(id=x, ctx=ast.Load()), stop=known):
                     out.append(x)
     return out
 
